@@ -317,3 +317,8 @@ LEVEL_TEXT = ("Proof: Coq theorems in Properties/C06.v over a model of psi/pmt.g
 LEVEL_NOTE = ("Trusted: Coq kernel; transcription Model/Pmt.v, Model/Psi.v; Spec/PmtSpec.v as reading of ISO 13818-1; "
               "extraction and executor glue; reflection access to the descriptor body in goexec.")
 TECHNIQUE = "Coq proof (parser inverts serialiser by induction with ghost offsets; prefix characterisation; accumulator composition) + model/implementation correspondence"
+
+
+# coverage round (notes/coverage.md): cases and support theorems for exported identifiers outside the property text
+from gen import covlib
+covlib.install(globals())
